@@ -917,6 +917,33 @@ func c10R11(e *Engine) {
 			}
 			for _, r := range returnsOf(fn) {
 				if !isNilConst(retVals(r)[0]) {
+					// var out []T; for … { out = append(out, …) }; return out – nil when the loop does not run, which is
+					// the EMPTY argument as well as the nil one
+					if phi, isPhi := retVals(r)[0].(*ssa.Phi); isPhi {
+						zero, grown := false, false
+						for _, src := range phiSources(phi) {
+							if isNilConst(src) {
+								zero = true
+							} else if c, isC := src.(*ssa.Call); isC && staticCalleeName(c) == "builtin.append" {
+								grown = true
+							}
+						}
+						nonEmpty := false
+						for _, cd := range condsAt(r.Block()) {
+							cd = normCond(cd)
+							if b, ok := cd.V.(*ssa.BinOp); ok {
+								if l, isLen := lenOf(b.X); isLen && strip(l) == ssa.Value(p) {
+									if k, isK := constInt(b.Y); isK && k == 0 && ((b.Op == token.EQL && !cd.Val) || (b.Op == token.NEQ && cd.Val) || (b.Op == token.GTR && cd.Val)) {
+										nonEmpty = true
+									}
+								}
+							}
+						}
+						if zero && grown && !nonEmpty {
+							n++
+							e.fail("R11", e.fname(fn)+":nil-only-for-nil", e.ipos(r), "the result is accumulated by append from the zero value: for an EMPTY argument the loop does not run and nil is returned, not only for a nil one – an empty list or set becomes an absent one and the attribute loses its type")
+						}
+					}
 					continue
 				}
 				n++
